@@ -21,8 +21,8 @@ DICT_STR_TYPE = 17
 
 
 def write_string(s, outf):
-    str_len = len(s)
-    outf.write(str_len.to_bytes(STR_LEN_BYTES, BYTE_ORDER) + bytearray(s, encoding=ENCODING))
+    encoded_str = bytearray(s, encoding=ENCODING)
+    outf.write(len(encoded_str).to_bytes(STR_LEN_BYTES, BYTE_ORDER) + encoded_str)
 
 
 def read_string(inf):
@@ -34,8 +34,8 @@ def write_string_or_none(s, outf):
     if s is None:
         outf.write(NONE_STR_LEN.to_bytes(STR_LEN_BYTES, BYTE_ORDER))
         return
-    str_len = len(s)
-    outf.write(str_len.to_bytes(STR_LEN_BYTES, BYTE_ORDER) + bytearray(s, encoding=ENCODING))
+    encoded_str = bytearray(s, encoding=ENCODING)
+    outf.write(len(encoded_str).to_bytes(STR_LEN_BYTES, BYTE_ORDER) + encoded_str)
 
 
 def read_string_or_none(inf):
